@@ -191,7 +191,8 @@ def split_extra(prop, tier, seed):
     names = ["sp1", "sp2", "__AUTH__", "__UNAUTH__"]
     clients = [("node", []), ("node", ["sp1"]), ("node", ["zz", "sp2"]), ("node", ["__UNAUTH__"]), ("node", ["__AUTH__", "sp1"]), ("node", ["zz"]),
                ("base", []), ("base", ["sp1"]), ("base", ["__AUTH__"]), ("base", ["sp2", "__UNAUTH__"]), ("base", ["zz"]), ("fetch", ["sp1"]),
-               ("rogue", []), ("node", ["sp1"]), ("rogue", ["__AUTH__"]), ("rogue", ["sp1"]), ("node", [])]
+               ("rogue", []), ("node", ["sp1"]), ("rogue", ["__AUTH__"]), ("rogue", ["sp1"]), ("node", []),
+               ("nodeAfter", ["sp1"]), ("nodeAfter", ["zz", "sp2"]), ("nodeBefore", ["sp2"]), ("nodeAfter", [])]
     regs = []
     for k in range(len(names) + 1):
         for sub in itertools.combinations(names, k):
